@@ -555,7 +555,8 @@ func (p *parser) skipWhiteSpace() {
 			continue
 		}
 		if p.chr >= utf8.RuneSelf {
-			if unicode.IsSpace(p.chr) {
+			// 7.2: category Zs; U+0085 (NEL) is not white space in ECMAScript.
+			if p.chr != '\u0085' && unicode.IsSpace(p.chr) {
 				p.read()
 				continue
 			}
